@@ -220,6 +220,15 @@ func historyEnd(h string) string {
 	return m[len(m)-1][1]
 }
 
+func showLike(l string) bool {
+	for _, p := range []string{"sh ", "show ", "uname", "hostname", "grep", "which"} {
+		if strings.HasPrefix(l, p) {
+			return true
+		}
+	}
+	return l == "write term" || l == "iptables-save" || l == "ip route show"
+}
+
 func benignKind(k string) bool { return k == "warntext" || k == "infotext" || k == "" }
 
 // classify the command at the fault position for the signature of a finding
@@ -264,6 +273,12 @@ func oracle(c CaseIn, o CaseOut, base, baseE plan) verdict {
 			}
 		}
 	}
+	kindEff := c.FaultKind
+	if kindEff == "warntext" && o.FaultAt >= 1 && o.FaultAt <= len(o.Lines) && showLike(o.Lines[o.FaultAt-1]) {
+		// `WARNING: …` in place of the output of a show command is unexpected output, not a notice
+		kindEff = "unexpected"
+	}
+	c.FaultKind = kindEff
 	if o.FaultAt >= 0 && !benignKind(c.FaultKind) {
 		// a device-side failure was injected
 		cls := faultClass(c.Scen.Backend, o.Lines, o.FaultAt, c.FaultKind, base, baseE)
@@ -278,9 +293,23 @@ func oracle(c CaseIn, o CaseOut, base, baseE plan) verdict {
 				pred = "output_of_save_command_not_inspected_beyond_confirmation"
 			}
 		}
+		if isHTTP(c.Scen.Backend) && c.FaultKind == "close" && cls != "change" || c.Scen.Backend == "PAN-OS" && c.FaultKind == "close" {
+			if pred == "other" {
+				pred = "closed_connection_replayed_by_net_http"
+			}
+		}
 		if c.Scen.Backend == "NSX" && c.FaultKind == "malformed" && (cls == "change" || o.FaultAt == 1) {
 			// NSX defines success of these requests by the status code: not a failure
 			return verdict{ok: true}
+		}
+		// content classification of what the device received (independent of the model):
+		// change = a command of the planner's script (or one of Linux' fixed activation commands),
+		// save = write memory / commit / job poll
+		isChange := map[string]bool{"chmod a+x /etc/network/packet-filter.new": true, "/etc/network/packet-filter.new": true,
+			"mv -f /etc/network/packet-filter.new /etc/network/packet-filter": true,
+			"write memory": true, "commit": true, "show jobs": true}
+		for _, x := range append(base.lines(), baseE.lines()...) {
+			isChange[x] = true
 		}
 		after := o.Lines[min(o.FaultAt, len(o.Lines)):]
 		for i, l := range after {
@@ -288,7 +317,7 @@ func oracle(c CaseIn, o CaseOut, base, baseE plan) verdict {
 			if i == 0 && o.FaultAt >= 1 && joined[canonLine(c.Scen.Backend, o.Lines[o.FaultAt-1])+"\x00"+cl] {
 				continue // second half of the packet that was already on the wire
 			}
-			if isHTTP(c.Scen.Backend) || !cleanupLines[cl] {
+			if isChange[cl] {
 				return verdict{false, pred, fmt.Sprintf("%q sent after the failure (%s at the reply to line %d, a %s command)", cl, c.FaultKind, o.FaultAt, cls)}
 			}
 		}
@@ -521,9 +550,6 @@ func run(ctx *Ctx) *Result {
 			if pos == 0 && (k == "errtext" || k == "garbled" || k == "warntext") {
 				return false
 			}
-			if k == "garbled" && pos >= 1 && strings.Contains(s.Table[blOut[i].Lines[pos-1]], "<!>") {
-				return false // the simulator cannot garble a reply that reads further input
-			}
 			return true
 		}
 		for pos := first; pos <= n; pos++ {
@@ -533,7 +559,7 @@ func run(ctx *Ctx) *Result {
 				}
 				cases = append(cases, CaseIn{Scen: s, Tool: "doapprove", Mode: "approve", FaultPos: pos, FaultKind: k})
 			}
-			if s.Backend == "PAN-OS" && pos > 3 {
+			if s.Backend == "PAN-OS" && strings.Contains(blOut[i].Lines[pos-1], "<show><jobs>") {
 				cases = append(cases, CaseIn{Scen: s, Tool: "doapprove", Mode: "approve", FaultPos: pos, FaultKind: "jobfail"})
 			}
 		}
@@ -712,12 +738,12 @@ func evalCases(ctx *Ctx, res *Result, drv *Nadrv, cases []CaseIn, nw int, verbos
 		v := oracle(c, o, p.g, p.e)
 		if !v.ok {
 			res.Fail(map[string]any{"pred": v.pred, "backend": c.Scen.Backend}, v.what, c)
-			// the model must predict the same class of finding (first bad reply is not a checked one)
-			if m["sf"] == "1" && m["exit"] != "0" {
-				res.Disagree("oracle-vs-model-spec", c, v.what, ans)
-			}
-		} else if c.FaultPos >= 0 && !benignKind(c.FaultKind) && m["sf"] != "1" {
-			res.Disagree("model-spec-vs-oracle", c, "oracle: property holds on the real run", ans)
+		}
+		// the model's own verdict (specification predicates evaluated on the model's trace)
+		// must be the oracle's verdict on the real run
+		modelHolds := m["sf"] == "1" && (m["ff"] == "-1" || m["dexit"] == "1")
+		if v.ok != modelHolds && v.pred != "go_panic" {
+			res.Disagree("oracle-vs-model-spec", c, fmt.Sprintf("oracle ok=%v %s", v.ok, v.what), ans)
 		}
 		if verbose {
 			fmt.Fprintf(os.Stderr, "impl : %s\nmodel: %s\noracle: %+v\n", impl, model, v)
